@@ -211,6 +211,10 @@ Constructed == <<
   D("L-seq", TSeqOf(TSeq(<<C(I07), O(TBool)>>, FALSE, <<>>), CNone)),
   D("L-ref", TSeqOf(TRef("K-ib"), CNone)),
   D("K-in", TChoice(<<C(Int0), C(TNull)>>, FALSE, <<>>)),
+  \* lists of an untagged CHOICE whose alternatives are decoded piecewise (string, constructed)
+  D("K-os", TChoice(<<C(TOctets(CNone)), C(TSeq(<<C(I07), O(TBool)>>, FALSE, <<>>))>>, FALSE, <<>>)),
+  D("L-os", TSeqOf(TRef("K-os"), CNone)),
+  D("M-os", TSetOf(TRef("K-os"), CNone)),
   D("M-in", TSetOf(TRef("K-in"), CNone)),       \* elements with different tags and lengths: the canonical order is by octets
 
   D("L-str", TSeqOf(IA5, CNone)),
@@ -251,6 +255,10 @@ CommonDefs == <<
   D("K-nest", TChoice(<<C(TRef("K-ib")), C(TNull), C(TSeq(<<C(I07)>>, FALSE, <<>>))>>, FALSE, <<>>)),
   D("L-ref", TSeqOf(TRef("K-ib"), CNone)),
   D("K-in", TChoice(<<C(Int0), C(TNull)>>, FALSE, <<>>)),
+  \* lists of an untagged CHOICE whose alternatives are decoded piecewise (string, constructed)
+  D("K-os", TChoice(<<C(TOctets(CNone)), C(TSeq(<<C(I07), O(TBool)>>, FALSE, <<>>))>>, FALSE, <<>>)),
+  D("L-os", TSeqOf(TRef("K-os"), CNone)),
+  D("M-os", TSetOf(TRef("K-os"), CNone)),
   D("M-in", TSetOf(TRef("K-in"), CNone)),       \* elements with different tags and lengths: the canonical order is by octets
 
   D("M-seq", TSetOf(TSeq(<<C(I07), O(TBool)>>, FALSE, <<>>), CNone)),
